@@ -107,6 +107,7 @@ def execute(spec, ops):
     sys.stdout, sys.stderr = dummy_out, dummy_err
     events = []
     taskids = {}
+    reused = [None]
     try:
         tap.take()
         queue = list(ops)
@@ -154,6 +155,12 @@ def execute(spec, ops):
                     if cls == "status":
                         kw = dict(spinner=op["spinner"]) if op.get("spinner") else {}
                         disp.update(status="\n".join(label_text(r) for r in op["rows"]), **kw)
+                    elif spec.get("reuse"):
+                        # the SAME renderable object, changed in place and handed over again (a Table the user keeps adding rows to)
+                        if reused[0] is None:
+                            reused[0] = frame_renderable(op["rows"], flaky, wide=spec.get("wide", False), width=Wd)
+                        reused[0].rows = op["rows"]
+                        disp.update(reused[0], refresh=op["refresh"])
                     else:
                         disp.update(frame_renderable(op["rows"], flaky, wide=spec.get("wide", False), width=Wd), refresh=op["refresh"])
                 elif k == "refresh":
@@ -298,6 +305,7 @@ SPECS = [
     dict(cls="live", mode="last", transient=False, overflow="ellipsis", H=25, wide=True),
     dict(cls="live", mode="last", transient=True, overflow="visible", H=4, wide=True),
     dict(cls="progress", mode="max", transient=False, overflow="visible", H=25, wide=True),
+    dict(cls="live", mode="last", transient=False, overflow="ellipsis", H=25, reuse=True),
 ]
 
 
@@ -312,6 +320,8 @@ def random_spec(rng):
                 redirect=rng.random() < 0.8)
     if cls != "status" and rng.random() < 0.25:
         spec["wide"] = True
+    if cls == "live" and rng.random() < 0.3:
+        spec["reuse"] = True
     if cls == "status" and rng.random() < 0.5:
         spec["spinner"] = rng.choice(["line", "bouncingBar", "moon", "clock", "point", "arrow3"])
     return spec
